@@ -13,13 +13,16 @@ package main
 //   * a new connection made after the switch is accepted by the new handler (inherited socket) and served.
 
 import (
+	"bytes"
 	"context"
 	"encoding/json"
 	"fmt"
+	"io"
 	"net"
 	"os"
 	"strconv"
 	"sync"
+	"syscall"
 	"time"
 
 	v2 "mosn.io/mosn/pkg/config/v2"
@@ -164,6 +167,8 @@ func c11Transfer(run *Run, mu *mosnUnderTest, xl v2.Listener) int {
 			return 0
 		}
 	}
+	// ---- the half-WRITTEN response: reference streams first (an ordinary connection, no hand-over), then a slow reader
+	hw := setupHalfWritten(addr, run.N(12, 16)<<20)
 	time.Sleep(60 * time.Millisecond)
 	oldBefore := numConns(oldH)
 
@@ -214,6 +219,10 @@ func c11Transfer(run *Run, mu *mosnUnderTest, xl v2.Listener) int {
 	}
 	transferred := numConns(newH)
 	time.Sleep(100 * time.Millisecond)
+	// the slow reader: the transfer timers have fired by now; a second, pipelined request, then read everything
+	var hwWG sync.WaitGroup
+	hwWG.Add(1)
+	go func() { defer hwWG.Done(); hw.finish() }()
 
 	// ---- the clients go on: rest of the request, then count the replies
 	for _, xc := range conns {
@@ -242,6 +251,9 @@ func c11Transfer(run *Run, mu *mosnUnderTest, xl v2.Listener) int {
 	}
 	wg.Wait()
 	conns = append(conns, nx)
+
+	hwWG.Wait()
+	hw.report(run)
 
 	// ---- evaluate
 	run.Sum.Extra["in_process_upgrade"] = map[string]interface{}{"connections_on_old_before": oldBefore, "connections_to_hand_over": len(conns) - 1, "connections_owned_by_new_handler_after": transferred}
@@ -275,4 +287,160 @@ func xferIDBase() int {
 		return n
 	}
 	return 100
+}
+
+// ---------------------------------------------------------------------------------------------
+// Hand-over while the old process has a response HALF WRITTEN.  A client with a tiny receive buffer asks for a multi-MiB
+// response and reads only its beginning, so the old process blocks in doWrite holding the connection's write lock; the
+// hand-over is triggered; the client sends a second, pipelined request and then reads everything.  The property: the
+// client sees response 1 intact and complete, then response 2 - decided by comparing the whole client stream byte for byte
+// with reference streams recorded on an ordinary connection (no wall-clock judgement; 60 s deadlines).
+
+type halfWritten struct {
+	Size     int    `json:"response_1_content_bytes"`
+	RefLen1  int    `json:"response_1_stream_bytes"`
+	RefLen2  int    `json:"response_2_stream_bytes"`
+	Got      int    `json:"client_stream_bytes"`
+	Resp2At  int    `json:"offset_of_response_2_in_client_stream"` // -1: not found
+	Intact   bool   `json:"stream_equals_response_1_then_response_2"`
+	FirstBad int    `json:"first_differing_offset"`
+	Err      string `json:"error,omitempty"`
+	Skipped  string `json:"skipped,omitempty"`
+	c        net.Conn
+	ref      []byte
+	ref2     []byte
+	head     []byte
+}
+
+func hwRequest(id uint32, size int) []byte {
+	b, _ := json.Marshal(script{Size: size})
+	return boltRequest(id, b)
+}
+
+func readExactly(c net.Conn, n int, d time.Duration) ([]byte, error) {
+	c.SetReadDeadline(time.Now().Add(d))
+	b := make([]byte, n)
+	_, err := io.ReadFull(c, b)
+	return b, err
+}
+
+func setupHalfWritten(addr string, size int) *halfWritten {
+	hw := &halfWritten{Size: size, Resp2At: -1, FirstBad: -1}
+	types.DefaultConnWriteTimeout = 90 * time.Second // the slow reader must not run into the old side's write deadline
+	// reference: the two responses as the old process writes them on an ordinary connection
+	rc, err := dialLocal(addr, 2*time.Second)
+	if err != nil {
+		hw.Skipped = "reference connection: " + err.Error()
+		return hw
+	}
+	defer rc.Close()
+	if err := (&boltClient{c: rc}).warmup(); err != nil {
+		hw.Skipped = "reference warm-up: " + err.Error()
+		return hw
+	}
+	rc.SetWriteDeadline(time.Now().Add(generous))
+	rc.Write(hwRequest(501, size))
+	ref1, err := readExactly(rc, 20+size, 60*time.Second)
+	if err != nil {
+		hw.Skipped = "reference response 1: " + err.Error()
+		return hw
+	}
+	rc.Write(boltRequest(502, fixedBody(0)))
+	ref2, err := readExactly(rc, 20+2, 60*time.Second)
+	if err != nil {
+		hw.Skipped = "reference response 2: " + err.Error()
+		return hw
+	}
+	hw.ref, hw.ref2 = append(ref1, ref2...), ref2
+	hw.RefLen1, hw.RefLen2 = len(ref1), len(ref2)
+	// the slow reader: tiny receive buffer, reads only the beginning of response 1
+	d := net.Dialer{Timeout: 2 * time.Second, Control: func(network, address string, c syscall.RawConn) error {
+		return c.Control(func(fd uintptr) { syscall.SetsockoptInt(int(fd), syscall.SOL_SOCKET, syscall.SO_RCVBUF, 4096) })
+	}}
+	c, err := d.Dial("tcp", addr)
+	if err != nil {
+		hw.Skipped = "slow connection: " + err.Error()
+		return hw
+	}
+	hw.c = c
+	if err := (&boltClient{c: c}).warmup(); err != nil {
+		hw.Skipped = "slow connection warm-up: " + err.Error()
+		return hw
+	}
+	c.SetWriteDeadline(time.Now().Add(generous))
+	c.Write(hwRequest(501, size))
+	head, err := readExactly(c, 32<<10, 60*time.Second)
+	if err != nil {
+		hw.Skipped = "beginning of response 1: " + err.Error()
+		return hw
+	}
+	hw.head = head
+	return hw
+}
+
+// finish: after the hand-over was triggered - pipeline request 2, then drain the connection (throttled).
+func (hw *halfWritten) finish() {
+	if hw.Skipped != "" || hw.c == nil {
+		return
+	}
+	defer hw.c.Close()
+	time.Sleep(600 * time.Millisecond)
+	hw.c.SetWriteDeadline(time.Now().Add(generous))
+	hw.c.Write(boltRequest(502, fixedBody(0)))
+	time.Sleep(300 * time.Millisecond) // whoever owns the read side answers request 2 now
+	got := append([]byte{}, hw.head...)
+	buf := make([]byte, 64<<10)
+	want := len(hw.ref)
+	deadline := time.Now().Add(60 * time.Second)
+	for len(got) < want && time.Now().Before(deadline) {
+		hw.c.SetReadDeadline(time.Now().Add(10 * time.Second))
+		n, err := hw.c.Read(buf)
+		got = append(got, buf[:n]...)
+		if err != nil {
+			hw.Err = err.Error()
+			break
+		}
+		if len(got)%(1<<20) < len(buf) {
+			time.Sleep(2 * time.Millisecond) // a slow reader
+		}
+	}
+	// anything after the expected end?
+	if len(got) >= want {
+		hw.c.SetReadDeadline(time.Now().Add(500 * time.Millisecond))
+		if n, _ := hw.c.Read(buf); n > 0 {
+			got = append(got, buf[:n]...)
+		}
+	}
+	hw.Got = len(got)
+	hw.Intact = bytes.Equal(got, hw.ref)
+	if !hw.Intact {
+		for i := 0; i < len(got) && i < len(hw.ref); i++ {
+			if got[i] != hw.ref[i] {
+				hw.FirstBad = i
+				break
+			}
+		}
+		if hw.FirstBad < 0 {
+			hw.FirstBad = min(len(got), len(hw.ref))
+		}
+	}
+	hw.Resp2At = bytes.Index(got, hw.ref2)
+}
+
+func (hw *halfWritten) report(run *Run) {
+	rep := map[string]interface{}{"part": "transfer", "kind": "half-written-response", "observation": hw}
+	if hw.Skipped != "" {
+		fmt.Fprintln(os.Stderr, "half-written-response case skipped:", hw.Skipped)
+		run.Count("xfer|half-written|skipped", false, "upgrade-half-written-response-skipped")
+		return
+	}
+	run.Count(fmt.Sprintf("xfer|half-written|%d", hw.Size), true, "upgrade-half-written-response")
+	if !hw.Intact {
+		what := fmt.Sprintf("a connection was handed over while a %d-byte response was half written to a slow reader; the client stream (%d bytes) differs from response 1 followed by response 2 (%d bytes) at offset %d; response 2 starts at offset %d of the client stream (response 1 is %d bytes long)", hw.Size, hw.Got, len(hw.ref), hw.FirstBad, hw.Resp2At, hw.RefLen1)
+		run.Fail("transfer:handed-over-while-response-half-written:stream-corrupted", what, rep)
+	}
+	sh := run.NewShard("From MV Require Import Gen.TransferTokens.\nFrom Coq Require Import ZArith.\n"+c11Header, "hw_case", "hw_mismatches transfer_takes_write_lock_first")
+	sh.Add(fmt.Sprintf("(%s, %s, %s, %s)", CoqN(uint64(hw.RefLen1)), CoqN(uint64(hw.RefLen2)), CoqBool(hw.Intact), CoqZ(int64(hw.Resp2At))), rep)
+	sh.Close()
+	run.Sample(rep)
 }
